@@ -126,6 +126,7 @@ class Inliner:
         self.recursive = []    # (chain, callee) pairs where recursion was cut
         self.unresolved = []   # local-looking calls we could not resolve
         self.lazy_unexpanded = []  # (entry, block, what): effectful closures run by library iterator code we do not expand
+        self.expand_guard_containers = False
 
     # -------------------------------------------------------- resolution
     def resolve(self, callee, self_subst):
@@ -163,6 +164,14 @@ class Inliner:
                 sub = st
             return f, sub
         d = callee.get("def")
+        # a trait method call synthesised by an expansion (no resolution from the compiler): look the impl up by self type
+        if tr and st is not None and not r and (st.get("adt") or "").startswith(facts.crate + "::"):
+            name = d.rsplit("::", 1)[1]
+            for f in facts.fns.values():
+                if f.f.get("impl_trait") == tr and f.name == name:
+                    isf = f.f.get("impl_self") or {}
+                    if isf.get("adt") == st.get("adt"):
+                        return f, None
         if d in facts.fns and not tr:
             return facts.fns[d], None
         if d in facts.fns and tr:
@@ -173,6 +182,7 @@ class Inliner:
     # ----------------------------------------------------------- inlining
     def inline(self, fn):
         self._cur = fn.path
+        n_unexp0 = len(self.lazy_unexpanded)
         locals_ = copy.deepcopy(fn.locals)
         blocks = copy.deepcopy(fn.blocks)
         tag_promoted(blocks, fn.path)
@@ -187,6 +197,13 @@ class Inliner:
                 if nb is not None:
                     prov.append((prov[b][0], prov[b][1], prov[b][2]))
                     work.append((b, chain, self_subst))
+                    continue
+                newb = self._expand_container_drop(b, t, locals_, blocks)
+                if newb:
+                    for x in newb:
+                        prov.append((prov[b][0], prov[b][1], prov[b][2]))
+                    for x in newb:
+                        work.append((x, chain, self_subst))
                 continue
             if t["k"] != "call":
                 continue
@@ -194,8 +211,8 @@ class Inliner:
             callee = t["callee"]
             self._rework = []
             new = self._expand_adaptor(b, t, callee, locals_, blocks)
-            if new:
-                for nb in new:
+            if new or self._rework:
+                for nb in new or []:
                     prov.append((prov[b][0], prov[b][1], prov[b][2]))
                     work.append((nb, chain, self_subst))
                 for rb in self._rework:
@@ -275,6 +292,7 @@ class Inliner:
         out = Fn(d, self.facts)
         out.prov = prov
         out.inlined = True
+        out.unexpanded = list(self.lazy_unexpanded[n_unexp0:])   # crate code with effects that library code runs out of sight
         return out
 
     # ------------------------------------------------ Drop impls of the crate's own types
@@ -314,6 +332,113 @@ class Inliner:
                              "args": [{"k": "move", "pl": {"l": rl, "p": []}}], "argtys": [locals_[rl]["ty"]], "dst": {"l": ul, "p": []},
                              "target": nb, "unwind": t["unwind"], **span, "drop_impl_of": adt}
         return nb
+
+    # ------------------------------------------------ containers of the crate's own Drop types
+    def _guard_types(self, ty):
+        """Local ADTs (other than the handle types) with an effectful Drop impl that the drop glue of `ty` can run."""
+        out = []
+        for p in ty.get("ldt") or []:
+            if p in self.HANDLES:
+                continue
+            for f in self.facts.fns.values():
+                if f.f.get("impl_trait") == "core::ops::Drop" and f.name == "drop" and (f.f.get("impl_self") or {}).get("adt") == p:
+                    if self._effectful({"k": "fndef", "fndef": f.path}):
+                        out.append(p)
+        return out
+
+    def _expand_container_drop(self, b, t, locals_, blocks):
+        """`drop(place: Vec<G>)` / `Option<G>` / a tuple containing G, where G is a type of this crate whose Drop impl has
+        effects: the library's drop glue would run G::drop out of sight.  The drop is rewritten element by element
+        (a Vec as the pop loop it amounts to, including the continuation that keeps dropping the remaining elements
+        while unwinding out of one element's destructor)."""
+        ty = t["ty"]
+        if ty.get("peel", 0) != 0 and ty.get("k") in ("ref", "refmut", "ptr", "ptrmut"):
+            return None
+        guards = self._guard_types(ty)
+        if not guards:
+            return None
+        adt = ty.get("adt")
+        if adt in guards and ty.get("peel", 0) == 0:
+            return None     # the guard itself: _expand_local_drop
+        if not self.expand_guard_containers:
+            # The elements' identities are lost through the container (a popped guard is "some" earlier element), so an
+            # element-wise expansion would make the rules speak about unknown boxes.  No verdict instead.
+            self.lazy_unexpanded.append((self._cur, b, "the drop glue of `%s` runs the Drop impl of %s (a type of this crate with side effects) once per element from inside library code" % (ty.get("s", "?")[:80], guards[0])))
+            return None
+        span = {k: t.get(k) for k in ("file", "line", "exp", "macro")}
+        cleanup = blocks[b]["cleanup"]
+        unwind = t["unwind"]
+        nl = lambda ty_: (locals_.append({"ty": ty_, "name": None}), len(locals_) - 1)[1]
+        args = ty.get("args") or []
+        def stripped(ty_):
+            g = dict(ty_)
+            g.pop("ldt", None)
+            g["dp"] = 0
+            return g
+        if adt in ("alloc::vec::Vec", "alloc::collections::VecDeque") and len(args) >= 1:
+            ety = args[0]
+            popname = "pop" if adt == "alloc::vec::Vec" else "pop_front"
+            callee = {"def": ("alloc::vec::Vec::<T, A>::" if adt == "alloc::vec::Vec" else "alloc::collections::VecDeque::<T, A>::") + popname, "full": adt + "::" + popname, "crate": "alloc", "args": [], "targs": [], "local": False}
+            def loop(in_cleanup, after):
+                """blocks of one pop loop; `after` = terminator reached when the container is empty"""
+                r = nl({"s": "&mut ?", "k": "refmut", "hp": False, "nd": False, "dp": 0})
+                e = nl(dict(self.OPT_TY))
+                d = nl({"s": "isize", "k": "int", "hp": False, "nd": False, "dp": 0})
+                x = nl(ety)
+                n0 = len(blocks)
+                hdr, sw, body, done = n0, n0 + 1, n0 + 2, n0 + 3
+                uw = "terminate" if in_cleanup else None
+                blocks.append({"cleanup": in_cleanup, "stmts": [{"k": "assign", "dst": {"l": r, "p": []}, "rv": {"k": "ref", "mut": True, "pl": copy.deepcopy(t["pl"])}, **span}],
+                               "term": {"k": "call", "callee": callee, "fnop": {"k": "const", "ty": self.UNK_TY, "desc": popname}, "args": [{"k": "move", "pl": {"l": r, "p": []}}], "argtys": [],
+                                        "dst": {"l": e, "p": []}, "target": sw, "unwind": "terminate" if in_cleanup else unwind, **span}})
+                blocks.append({"cleanup": in_cleanup, "stmts": [{"k": "assign", "dst": {"l": d, "p": []}, "rv": {"k": "discr", "pl": {"l": e, "p": []}}, **span}],
+                               "term": {"k": "switch", "discr": {"k": "move", "pl": {"l": d, "p": []}}, "targets": [["0", done], ["1", body]], "otherwise": done, **span}})
+                blocks.append({"cleanup": in_cleanup, "stmts": [{"k": "assign", "dst": {"l": x, "p": []}, "rv": {"k": "use", "op": {"k": "move", "pl": {"l": e, "p": [{"dc": "Some", "vi": 1}, {"f": 0, "n": "0", "of": ""}]}}}, **span}],
+                               "term": {"k": "drop", "pl": {"l": x, "p": []}, "ty": ety, "target": hdr, "unwind": uw, **span}})
+                glue = dict(t)
+                glue["glue_only"] = True
+                glue["ty"] = stripped(ty)
+                glue.update(after)
+                blocks.append({"cleanup": in_cleanup, "stmts": [], "term": glue})
+                return hdr, body, [hdr, sw, body, done]
+            new = []
+            if cleanup or not isinstance(unwind, int):
+                hdr, body, bl = loop(True if cleanup else False, {"target": t["target"], "unwind": unwind})
+                if not cleanup:
+                    blocks[body]["term"]["unwind"] = unwind
+                new += bl
+            else:
+                # while unwinding out of one element's destructor the remaining elements are still dropped
+                chdr, cbody, cbl = loop(True, {"target": unwind, "unwind": "terminate"})
+                hdr, body, bl = loop(False, {"target": t["target"], "unwind": unwind})
+                blocks[body]["term"]["unwind"] = chdr
+                new += cbl + bl
+            blocks[b]["term"] = {"k": "goto", "target": hdr, **span, "adaptor": "container-drop"}
+            return new
+        if adt == "core::option::Option" and len(args) >= 1:
+            d = nl({"s": "isize", "k": "int", "hp": False, "nd": False, "dp": 0})
+            n0 = len(blocks)
+            pl = copy.deepcopy(t["pl"])
+            pl["p"] = pl["p"] + [{"dc": "Some", "vi": 1}, {"f": 0, "n": "0", "of": ""}]
+            blocks.append({"cleanup": cleanup, "stmts": [], "term": {"k": "drop", "pl": pl, "ty": args[0], "target": t["target"], "unwind": unwind, **span}})
+            blocks[b]["stmts"].append({"k": "assign", "dst": {"l": d, "p": []}, "rv": {"k": "discr", "pl": copy.deepcopy(t["pl"])}, **span})
+            blocks[b]["term"] = {"k": "switch", "discr": {"k": "move", "pl": {"l": d, "p": []}}, "targets": [["1", n0]], "otherwise": t["target"], **span, "adaptor": "container-drop"}
+            return [n0]
+        if ty.get("k") == "tuple" and args:
+            n0 = len(blocks)
+            idx = [i for i, a in enumerate(args) if a.get("nd") or a.get("ldt")]
+            nxt = t["target"]
+            new = []
+            for i in reversed(idx):
+                pl = copy.deepcopy(t["pl"])
+                pl["p"] = pl["p"] + [{"f": i, "n": str(i), "of": "tuple"}]
+                blocks.append({"cleanup": cleanup, "stmts": [], "term": {"k": "drop", "pl": pl, "ty": args[i], "target": nxt, "unwind": unwind, **span}})
+                nxt = len(blocks) - 1
+                new.append(nxt)
+            blocks[b]["term"] = {"k": "goto", "target": nxt, **span, "adaptor": "container-drop"}
+            return new
+        self.lazy_unexpanded.append((self._cur, b, "the drop glue of `%s` runs the Drop impl of %s (a type of this crate with side effects) from inside library code" % (ty.get("s", "?")[:80], guards[0])))
+        return None
 
     # ------------------------------------------------ library adaptors
     # Option/Result combinators taking a closure are expanded into the
@@ -577,6 +702,18 @@ class Inliner:
             r = self._expand_cell(b, t, callee, locals_, blocks)
             if r is not None:
                 return r
+        if callee is not None and callee["def"] == "core::mem::drop" and len(t["args"]) == 1 and t["args"][0].get("k") == "move" and not t["args"][0]["pl"]["p"]:
+            # `drop(x)` of a value whose drop glue runs an effectful Drop impl of this crate: make it the drop terminator it is
+            aty = locals_[t["args"][0]["pl"]["l"]]["ty"]
+            gts = self._guard_types(aty)
+            if gts and not (aty.get("adt") in gts and aty.get("peel", 0) == 0) and not self.expand_guard_containers:
+                self.lazy_unexpanded.append((self._cur, b, "`drop` of a `%s` runs the Drop impl of %s (a type of this crate with side effects) once per element from inside library code" % (aty.get("s", "?")[:80], gts[0])))
+            elif gts:
+                span = {k: t.get(k) for k in ("file", "line", "exp", "macro")}
+                blocks[b]["stmts"].append({"k": "assign", "dst": copy.deepcopy(t["dst"]), "rv": {"k": "use", "op": {"k": "const", "ty": {"s": "()", "k": "tuple"}, "desc": "()"}}, **span})
+                blocks[b]["term"] = {"k": "drop", "pl": copy.deepcopy(t["args"][0]["pl"]), "ty": aty, "target": t["target"], "unwind": t["unwind"], **span, "via_mem_drop": True}
+                self._rework.append(b)
+                return []
         if callee is not None and callee["def"] == "core::cmp::PartialEq::ne" and callee.get("resolved") in (None, "core::cmp::PartialEq::ne"):
             r = self._expand_ne(b, t, callee, locals_, blocks)
             if r is not None:
@@ -585,6 +722,10 @@ class Inliner:
             return self._expand_for_each(b, t, callee, locals_, blocks)
         if callee is not None and callee["def"] == "core::iter::Iterator::next":
             r = self._expand_lazy_next(b, t, callee, locals_, blocks)
+            if r is not None:
+                return r
+        if callee is not None and callee["def"] == "core::iter::Iterator::unzip":
+            r = self._expand_unzip(b, t, callee, locals_, blocks)
             if r is not None:
                 return r
         if callee is not None and callee["def"] == "core::iter::Iterator::fold":
@@ -763,7 +904,9 @@ class Inliner:
             return None
         l = op["pl"]["l"]
         stages = []
+        self._chain_base = l
         for _ in range(24):
+            self._chain_base = l
             d = self._local_def(l, blocks)
             if d is None:
                 break
@@ -832,6 +975,16 @@ class Inliner:
             return False
         return False
 
+    def _crate_iter_effectful(self, ty):
+        """Is `ty` (through references) a type of this crate whose own `Iterator::next` has side effects?"""
+        adt = (ty or {}).get("adt")
+        if not adt or not adt.startswith(self.facts.crate + "::"):
+            return False
+        for f in self.facts.fns.values():
+            if f.f.get("impl_trait") == "core::iter::Iterator" and f.name == "next" and (f.f.get("impl_self") or {}).get("adt") == adt:
+                return self._effectful({"k": "fndef", "fndef": f.path})
+        return False
+
     def _chain_effectful(self, stages):
         return any(cty is not None and self._effectful(cty) for (_k, _l, _i, _c, cty) in stages) or \
             any(k in ("filter", "map", "filter_map", "inspect") and cty is None for (k, _l, _i, _c, cty) in stages)
@@ -852,7 +1005,7 @@ class Inliner:
     def _expand_lazy_next(self, b, t, callee, locals_, blocks):
         """`Iterator::next` on a pipeline whose outermost expandable stage (or one below it) has an effectful closure."""
         stages = self._lazy_chain(t["args"][0], locals_, blocks) if t["args"] else None
-        if not stages or not self._chain_effectful(stages):
+        if not stages or not (self._chain_effectful(stages) or self._crate_iter_effectful(locals_[self._chain_base]["ty"])):
             return None
         kind, _self_l, inner, cop, cty = stages[0]
         if kind != "copied" and (cty is None or cop is None):
@@ -940,7 +1093,8 @@ class Inliner:
         if src is None:
             return None
         stages = self._lazy_chain(src, locals_, blocks)
-        if not stages or not self._chain_effectful(stages):
+        base_eff = self._crate_iter_effectful(locals_[self._chain_base]["ty"]) if stages is not None else False
+        if not ((stages and self._chain_effectful(stages)) or base_eff):
             return None
         if not into_vec or src.get("k") not in ("copy", "move") or src["pl"]["p"]:
             self.lazy_unexpanded.append((self._cur, b, "`%s` of a pipeline with an effectful closure" % d.rsplit("::", 1)[1]))
@@ -1001,6 +1155,57 @@ class Inliner:
                 self.lazy_unexpanded.append((self._cur, b, "`%s` is given a closure with side effects" % d))
                 return
 
+    def _expand_unzip(self, b, t, callee, locals_, blocks):
+        """`let (xs, ys): (Vec<_>, Vec<_>) = pipeline.unzip()` where the pipeline runs crate code with effects:
+        xs = Vec::new(); ys = Vec::new(); loop { match pipeline.next() { Some((x, y)) => { xs.push(x); ys.push(y) } None => break } }"""
+        a = t["args"]
+        if len(a) != 1 or a[0].get("k") not in ("copy", "move") or a[0]["pl"]["p"] or t["dst"]["p"]:
+            return None
+        stages = self._lazy_chain(a[0], locals_, blocks)
+        if stages is None:
+            return None
+        if not ((stages and self._chain_effectful(stages)) or self._crate_iter_effectful(locals_[self._chain_base]["ty"])):
+            return None
+        dty = locals_[t["dst"]["l"]]["ty"]
+        if dty.get("k") != "tuple" or "alloc::vec::Vec<" not in dty.get("s", ""):
+            self.lazy_unexpanded.append((self._cur, b, "`unzip` of a pipeline with an effectful closure into something other than two Vecs"))
+            return None
+        span = {k: t.get(k) for k in ("file", "line", "exp", "macro")}
+        cleanup = blocks[b]["cleanup"]
+        unwind = t["unwind"]
+        goto_t = {"k": "goto", "target": t["target"], **span} if t["target"] is not None else {"k": "unreachable", **span}
+        nl = lambda ty: (locals_.append({"ty": ty, "name": None}), len(locals_) - 1)[1]
+        vty = {"s": "alloc::vec::Vec<?>", "k": "adt", "adt": "alloc::vec::Vec", "peel": 0, "hp": True, "nd": True, "dp": 1}
+        it = a[0]["pl"]["l"]
+        va, vb = nl(dict(vty)), nl(dict(vty))
+        x = nl(dict(self.OPT_TY))
+        dl = nl({"s": "isize", "k": "int", "hp": False, "nd": False, "dp": 0})
+        pa, pb = nl(dict(self.UNK_TY)), nl(dict(self.UNK_TY))
+        ra, rb = nl({"s": "&mut alloc::vec::Vec<?>", "k": "refmut", "adt": "alloc::vec::Vec", "peel": 1, "hp": False, "nd": False, "dp": 0}), nl({"s": "&mut alloc::vec::Vec<?>", "k": "refmut", "adt": "alloc::vec::Vec", "peel": 1, "hp": False, "nd": False, "dp": 0})
+        ua, ub = nl({"s": "()", "k": "tuple", "hp": False, "nd": False, "dp": 0}), nl({"s": "()", "k": "tuple", "hp": False, "nd": False, "dp": 0})
+        n0 = len(blocks)
+        new_a, new_b, hdr, sw, push_a, push_b, done = n0, n0 + 1, n0 + 2, n0 + 3, n0 + 4, n0 + 5, n0 + 6
+        vec_callee = lambda m: {"def": "alloc::vec::Vec::<T>::" + m if m == "new" else "alloc::vec::Vec::<T, A>::" + m, "full": "alloc::vec::Vec::" + m, "crate": "alloc", "args": [], "targs": [], "local": False}
+        call = lambda cal, args, dst, tgt: {"k": "call", "callee": cal, "fnop": {"k": "const", "ty": self.UNK_TY, "desc": cal["full"]}, "args": args, "argtys": [], "dst": {"l": dst, "p": []}, "target": tgt, "unwind": unwind, **span}
+        blocks.append({"cleanup": cleanup, "stmts": [], "term": call(vec_callee("new"), [], va, new_b)})
+        blocks.append({"cleanup": cleanup, "stmts": [], "term": call(vec_callee("new"), [], vb, hdr)})
+        blocks.append(self._next_on(it, x, sw, unwind, cleanup, span, locals_))
+        blocks.append({"cleanup": cleanup, "stmts": [{"k": "assign", "dst": {"l": dl, "p": []}, "rv": {"k": "discr", "pl": {"l": x, "p": []}}, **span}],
+                       "term": {"k": "switch", "discr": {"k": "move", "pl": {"l": dl, "p": []}}, "targets": [["0", done], ["1", push_a]], "otherwise": done, **span}})
+        pay = lambda i: {"k": "move", "pl": {"l": x, "p": [{"dc": "Some", "vi": 1}, {"f": 0, "n": "0", "of": ""}, {"f": i, "n": str(i), "of": "tuple"}]}}
+        blocks.append({"cleanup": cleanup, "stmts": [
+            {"k": "assign", "dst": {"l": pa, "p": []}, "rv": {"k": "use", "op": pay(0)}, **span},
+            {"k": "assign", "dst": {"l": pb, "p": []}, "rv": {"k": "use", "op": pay(1)}, **span},
+            {"k": "assign", "dst": {"l": ra, "p": []}, "rv": {"k": "ref", "mut": True, "pl": {"l": va, "p": []}}, **span}],
+            "term": call(vec_callee("push"), [{"k": "move", "pl": {"l": ra, "p": []}}, {"k": "move", "pl": {"l": pa, "p": []}}], ua, push_b)})
+        blocks.append({"cleanup": cleanup, "stmts": [
+            {"k": "assign", "dst": {"l": rb, "p": []}, "rv": {"k": "ref", "mut": True, "pl": {"l": vb, "p": []}}, **span}],
+            "term": call(vec_callee("push"), [{"k": "move", "pl": {"l": rb, "p": []}}, {"k": "move", "pl": {"l": pb, "p": []}}], ub, hdr)})
+        blocks.append({"cleanup": cleanup, "stmts": [{"k": "assign", "dst": copy.deepcopy(t["dst"]), "rv": {"k": "agg", "ak": "tuple", "name": "", "variant": "", "vidx": 0, "fields": [],
+                                                                                                       "ops": [{"k": "move", "pl": {"l": va, "p": []}}, {"k": "move", "pl": {"l": vb, "p": []}}]}, **span}], "term": dict(goto_t)})
+        blocks[b]["term"] = {"k": "goto", "target": new_a, **span, "adaptor": "lazy-unzip"}
+        return [new_a, new_b, hdr, sw, push_a, push_b, done]
+
     def _expand_fold(self, b, t, callee, locals_, blocks):
         """`it.fold(init, f)` with a statically known, effectful closure:
         acc = init; loop { match it.next() { Some(x) => acc = f(acc, x), None => break } }; acc"""
@@ -1008,8 +1213,12 @@ class Inliner:
         if len(a) != 3 or a[0].get("k") not in ("copy", "move") or a[0]["pl"]["p"] or t["dst"]["p"]:
             return None
         fty = self._op_ty(a[2], locals_)
-        if fty is None or fty.get("k") not in ("closure", "fndef") or not self._effectful(fty):
+        if fty is None or fty.get("k") not in ("closure", "fndef"):
             return None
+        if not self._effectful(fty):
+            st_ = self._lazy_chain(a[0], locals_, blocks)
+            if not ((st_ and self._chain_effectful(st_)) or (st_ is not None and self._crate_iter_effectful(locals_[self._chain_base]["ty"]))):
+                return None
         span = {k: t.get(k) for k in ("file", "line", "exp", "macro")}
         cleanup = blocks[b]["cleanup"]
         unwind = t["unwind"]
@@ -1052,9 +1261,16 @@ class Inliner:
         if not d.startswith("core::iter::Iterator::") or not t["args"]:
             return
         m = d.rsplit("::", 1)[1]
-        if m in self.LAZY_CONSUMERS_OK:
+        if m == "next" and callee.get("resolved"):
             return
         stages = self._lazy_chain(t["args"][0], locals_, blocks)
+        base_ty = locals_[self._chain_base]["ty"] if getattr(self, "_chain_base", None) is not None else None
+        if m not in self.LAZY_CONSUMERS_OK or m == "next":
+            if self._crate_iter_effectful(base_ty) and not (m == "next" and not stages):
+                self.lazy_unexpanded.append((self._cur, b, "`%s` drives an iterator type of this crate whose `next` has side effects from inside library code" % m))
+                return
+        if m in self.LAZY_CONSUMERS_OK:
+            return
         if stages and self._chain_effectful(stages):
             self.lazy_unexpanded.append((self._cur, b, "`%s` on a pipeline with an effectful closure" % m))
 
